@@ -108,7 +108,7 @@ CREATE_FUNCS = ["create_junction", "create_junction", "create_sink", "create_sou
                 "create_pressure_control", "create_flow_control", "create_heat_exchanger", "create_heat_consumer",
                 "create_circ_pump_const_pressure", "create_circ_pump_const_mass_flow",
                 "create_junctions", "create_sinks", "create_sources", "create_ext_grids", "create_pipes",
-                "create_pipes_from_parameters", "create_valves", "create_pressure_controls", "create_flow_controls",
+                "create_pipes_from_parameters", "create_valves", "create_valves", "create_pressure_controls", "create_flow_controls",
                 "create_heat_exchangers", "create_heat_consumers"]
 
 
@@ -229,7 +229,7 @@ def _mk_call(rng, st, fn, fault):
         if rng.random() < 0.25:
             kw["geodata"] = [[0.0, 0.0], [1.0, 2.0]] if not bulk or rng.random() < 0.5 else [[[0.0, float(i_)], [2.0, 2.0]] for i_ in range(k)]
     elif fn in ("create_valve", "create_valves"):
-        et = "pi" if (P and rng.random() < 0.4) else "ju"
+        et = "pi" if (P and rng.random() < (0.6 if bulk else 0.4)) else "ju"
         if bulk:
             if et == "pi":
                 ps = [rng.choice(P) for _ in range(k)]
@@ -358,6 +358,8 @@ def _mk_call(rng, st, fn, fault):
             fkind = None
         else:
             fkind = rng.choice(cands)
+            if "pipe-not-at-junction" in cands and rng.random() < 0.5:
+                fkind = "pipe-not-at-junction"
             _inject(rng, st, fn, kw, fkind, k, table)
     op = {"op": "create", "fn": fn, "kw": kw, "fault": fkind}
     # ---- generator-side bookkeeping (valid calls are expected to succeed) --------------------------
@@ -856,6 +858,25 @@ def _tail_c16(trace, res):
         res.oracle_checks += 1
     except Exception as e:
         res.violate("C16", "C16/bulk-vs-single-raised:%s:%s" % (kind, type(e).__name__), repr(e)[:200], len(trace["ops"]))
+    # ---- bulk == one by one also in what is refused: a pipe-end valve at a junction of ANOTHER pipe of the call ------
+    a, b = base(), base()
+    pj = rng.choice([(0, 1, 2), (2, 1, 0)])      # (junction of the first valve, its pipe, the junction that is wrong for pipe 1 / 0)
+    js, els = ([0, 0], [0, 1]) if pj[0] == 0 else ([2, 2], [1, 0])
+    single_refused = False
+    try:
+        pp.create_valve(a, js[0], els[0], "pi", 80.0)
+        pp.create_valve(a, js[1], els[1], "pi", 80.0)
+    except UserWarning:
+        single_refused = True
+    try:
+        pp.create_valves(b, js, els, "pi", 80.0)
+        if single_refused:
+            res.violate("C16", "C16/invalid-accepted:create_valves:pipe-not-at-junction", "one by one refused, bulk accepted %r at %r" % (els, js),
+                        len(trace["ops"]))
+    except UserWarning:
+        if "valve" in b and len(b.valve):
+            res.violate("C16", "C16/not-atomic:create_valves:pipe-not-at-junction:valve", "", len(trace["ops"]))
+    res.oracle_checks += 1
     # ---- std type vs parameters -------------------------------------------------------------------
     a, b = base(), base()
     st = tail["std_type"]
